@@ -1222,3 +1222,59 @@ func init() {
 		New:    "if !nocross && details.old != nil {",
 		Expect: "R20.position-needs-spatial", Key: "fenceMatch→details.old.Geo().Center()", Why: "reverse of fix efd4714: the segment from 0N 0E to the new position 'crosses' fences when the previous value was a string"})
 }
+
+func init() {
+	// ---- fifth seeding round ---------------------------------------------------------------------------------------
+	mutant(&Mutant{Name: "geosearch-skipped-outside-bounds", Props: []string{"C02"}, File: fColl,
+		Old:    "\tc.spatial.Search(\n\t\tmin, max,\n\t\tfunc(_, _ [2]float32, o *object.Object) bool {\n\t\t\talive = iter(o)",
+		New:    "\tif minX, minY, maxX, maxY := c.Bounds(); rect.Max.X < minX || rect.Min.X > maxX || rect.Max.Y < minY || rect.Min.Y > maxY {\n\t\treturn alive\n\t}\n\tc.spatial.Search(\n\t\tmin, max,\n\t\tfunc(_, _ [2]float32, o *object.Object) bool {\n\t\t\talive = iter(o)",
+		Expect: "R2.search-unconditional", Key: "geoSearch→spatial.Search", Why: "the seeded change C02e: the index search is skipped when the query lies outside Bounds(), which is not computed like the index"})
+	mutant(&Mutant{Name: "point-entry-not-rounded-up", Props: []string{"C13", "C02"}, File: fColl,
+		Old:    "func rtreeRect(rect geometry.Rect) (min, max [2]float32) {\n\treturn [2]float32{",
+		New:    "func rtreeRect(rect geometry.Rect) (min, max [2]float32) {\n\tif rect.Min == rect.Max {\n\t\tmin = [2]float32{rtreeValueDown(rect.Min.X), rtreeValueDown(rect.Min.Y)}\n\t\treturn min, min\n\t}\n\treturn [2]float32{",
+		Expect: "R2.quantiser-corners", Key: "rtreeRect/return", Why: "the seeded change C13e: the upper corner of a point entry is the rounded-down corner"})
+	mutant(&Mutant{Name: "spinlock-optimistic-reader", Props: []string{"C07"}, File: fServer,
+		Old:    "func (l *rwspinlock) RLock() {\n\tfor {",
+		New:    "func (l *rwspinlock) RLock() {\n\tif l.state.Add(1) > 0 {\n\t\treturn\n\t}\n\tl.state.Add(-1)\n\tfor {",
+		Expect: "R7.lock-primitive", Key: "rwspinlock.RLock", Why: "the seeded change C07e"})
+	mutant(&Mutant{Name: "spinlock-writer-ignores-readers", Props: []string{"C07"}, File: fServer,
+		Old:    "\t\tif state == 0 && l.state.CompareAndSwap(state, -1) {",
+		New:    "\t\tif state >= 0 && l.state.CompareAndSwap(state, -1) {",
+		Expect: "R7.lock-primitive", Key: "rwspinlock.Lock", Why: "a writer that acquires while readers hold the lock"})
+	mutant(&Mutant{Name: "flusher-writes-after-unlock", Props: []string{"C08", "C03"}, File: fServer,
+		Old:    "\t\ts.mu.LockLowPriority()\n\t\tdefer s.mu.Unlock()\n\t\ts.flushAOF(true)\n",
+		New:    "\t\ts.mu.LockLowPriority()\n\t\tpending, logf := s.aofbuf, s.aof\n\t\ts.aofbuf = nil\n\t\ts.mu.Unlock()\n\t\tif len(pending) > 0 {\n\t\t\tlogf.Write(pending)\n\t\t\tlogf.Sync()\n\t\t}\n",
+		Expect: "R8.log-under-lock", Key: "Server.aof:logf.Write()", Why: "the seeded change C08e: the background flusher takes the buffer under the lock and writes it after the unlock"})
+	mutant(&Mutant{Name: "live-log-skipped-while-shrinking", Props: []string{"C09"}, File: fAOF,
+		Old:    "\t}\n\n\tif s.aof != nil {\n\t\ts.aofdirty.Store(true) // prewrite optimization flag",
+		New:    "\t} else if s.aof != nil {\n\t\ts.aofdirty.Store(true) // prewrite optimization flag",
+		Expect: "R9.shrinklog-capture", Key: "live-append-independent-of-shrinking", Why: "the seeded change C09e"})
+	mutant(&Mutant{Name: "retention-default-aliased", Props: []string{"C10"}, File: fHooks,
+		Old:    "\t\t\t\t\t\topts := &buntdb.SetOptions{\n\t\t\t\t\t\t\tExpires: true,\n\t\t\t\t\t\t\tTTL:     ttl,\n\t\t\t\t\t\t}\n",
+		New:    "\t\t\t\t\t\topts := hookLogSetDefaults\n\t\t\t\t\t\topts.TTL = ttl\n",
+		Expect: "R10.shared-defaults-immutable", Key: "defaults/hookLogSetDefaults", Why: "the seeded change C10e"})
+	mutant(&Mutant{Name: "equals-compares-directly", Props: []string{"C12"}, File: "internal/field/field.go",
+		Old:    "\treturn !v.Less(b) && !b.Less(v)\n",
+		New:    "\tif v.kind != b.kind {\n\t\treturn false\n\t}\n\tif v.kind == Number {\n\t\treturn v.num == b.num\n\t}\n\treturn strings.EqualFold(v.data, b.data)\n",
+		Expect: "R12.equals-from-order", Key: "Value.Equals", Why: "the seeded change C12e"})
+	mutant(&Mutant{Name: "expiry-loop-shares-details", Props: []string{"C14", "C05"}, File: fExpire,
+		Old:    "\tfor _, msg := range msgs {\n\t\t_, d, err := s.cmdDEL(msg)\n\t\tif err != nil {",
+		New:    "\tvar d commandDetails\n\tvar err error\n\tfor _, msg := range msgs {\n\t\t_, d, err = s.cmdDEL(msg)\n\t\tif err != nil {",
+		Expect: "R7.no-shared-retained-address", Key: "backgroundExpireObjects→writeAOF(&d)", Why: "the seeded change C14e in small: one commandDetails for all expiries of a sweep, its address retained per iteration"})
+	mutant(&Mutant{Name: "empty-http-command-handed-on", Props: []string{"C16"}, File: fServer,
+		Old:    "\t\t\tif len(msg.Args) == 0 {\n\t\t\t\treturn nil, errInvalidHTTP\n\t\t\t}\n\t\t\tmsgs = append(msgs, msg)",
+		New:    "\t\t\tmsgs = append(msgs, msg)",
+		Expect: "R16.empty-message-rejected", Key: "ReadMessages→append(msgs, msg)", Why: "the seeded change C16e"})
+	mutant(&Mutant{Name: "field-names-recorded-after-limit-return", Props: []string{"C17"}, File: "internal/server/scanner.go",
+		Old:    "\tif !sw.fullFields {\n\t\topts.obj.Fields().Scan(func(f field.Field) bool {\n\t\t\tsw.fkeys.Insert(f.Name())\n\t\t\treturn true\n\t\t})\n\t}\n\tsw.filled = append(sw.filled, opts)\n\tsw.numberItems++\n\tif sw.numberItems == sw.limit {\n\t\tsw.hitLimit = true\n\t\treturn false, nil\n\t}\n",
+		New:    "\tsw.filled = append(sw.filled, opts)\n\tsw.numberItems++\n\tif sw.numberItems == sw.limit {\n\t\tsw.hitLimit = true\n\t\treturn false, nil\n\t}\n\tif !sw.fullFields {\n\t\topts.obj.Fields().Scan(func(f field.Field) bool {\n\t\t\tsw.fkeys.Insert(f.Name())\n\t\t\treturn true\n\t\t})\n\t}\n",
+		Expect: "R17.fields-recorded-with-object", Key: "pushObject→sw.filled", Why: "the seeded change C17e"})
+	mutant(&Mutant{Name: "neighbour-walk-stops-beyond-radius", Props: []string{"C20"}, File: "internal/server/fence.go",
+		Old:    "\t\t\tif meters > fence.roam.meters {\n\t\t\t\treturn true // skip outside radius\n\t\t\t}",
+		New:    "\t\t\tif meters > fence.roam.meters {\n\t\t\t\treturn false // nothing nearer can follow\n\t\t\t}",
+		Expect: "R20.neighbour-scan-complete", Key: "callback-never-stops", Why: "the seeded change C20e in small"})
+	mutant(&Mutant{Name: "field-list-updated-in-place", Props: []string{"C05", "C01"}, File: "internal/field/list_binary.go",
+		Old:    "\t\t\t// replace\n\t\t\treturn List{putfield(b, field, s, i)}",
+		New:    "\t\t\tif nd := field.Value().Data(); datakind(kind) && field.Value().Kind() == kind && len(nd) == len(data) {\n\t\t\t\tcopy(b[i-len(data):i], nd)\n\t\t\t\treturn fields\n\t\t\t}\n\t\t\t// replace\n\t\t\treturn List{putfield(b, field, s, i)}",
+		Expect: "R5.field-list-persistent", Key: "(List).Set→copy into", Why: "the seeded change C05e"})
+}
